@@ -12,11 +12,11 @@ def run(tier, seed):
                        'tags: Python dict by_tag modelled as first index in the tag-sorted list (tags are distinct by compute_tags)']
     standard_front(chk, 'Props/C17.v', extra_vo=('Model/Topology.v', 'Model/Report.v', 'Proofs/AddressP.v', 'Corr/TopoDriver.v'))
     rng = random.Random(seed)
-    good, errs = stage_topo.run_stage(chk, rng, 48 if tier == 'quick' else 600)
+    good, errs = stage_topo.run_stage(chk, rng, 48 if tier == 'quick' else 2400)
     for r in errs:
         if r['error']['exception'] != 'ValueError':
             report_error(chk, 'topo', r)
-    good, errs = stage_topo.run_addr(chk, rng, 64 if tier == 'quick' else 800)
+    good, errs = stage_topo.run_addr(chk, rng, 64 if tier == 'quick' else 3200)
     for r in good:
         o = r['obs']
         chk.add_case(json.dumps(r['spec'], sort_keys=True), len(o['geos']) > 1,
